@@ -393,6 +393,12 @@ class CFG:
         r = self.reachable([start], avoid=set(through), edge_ok=edge_ok, include_start=include_start)
         return not (r & ends_s)
 
+    def falls_off_end(self) -> bool:
+        """some path reaches the normal exit without a `return` statement (implicit `return None`)"""
+        byid = {n.id: n for n in self.nodes}
+        reach = self.reachable([self.entry])
+        return any(p in reach and not isinstance(byid[p].ast, ast.Return) for p, _ in byid[self.exit].pred)
+
     def normal_only(self, s: int, t: int, lab: str) -> bool:
         return lab != "exc"
 
